@@ -1079,9 +1079,13 @@ class Engine:
             a = self.eval_operand(ctx, f, rv[2])
             b = self.eval_operand(ctx, f, rv[3])
             aty = self.operand_type(f, rv[2]) or self.operand_type(f, rv[3])
+            if isinstance(a, Opaque) or isinstance(b, Opaque):
+                return Opaque("derived")         # a value the check does not depend on stays one
             return self.binop(rv[1], a, b, aty, dest_ty)
         if k == "unop":
             a = self.eval_operand(ctx, f, rv[2])
+            if isinstance(a, Opaque):
+                return Opaque("derived")
             if rv[1] == "Not":
                 if z3.is_bool(a):
                     return z3.Not(a)
@@ -1122,6 +1126,11 @@ class Engine:
             if len(segs) >= 2 and segs[-2] in self.prog.enums and segs[-1] in self.prog.enums[segs[-2]]:
                 idx = self.prog.enums[segs[-2]].index(segs[-1])
                 return Enum(idx, {idx: Agg(vals)}, segs[-2])
+            if len(segs) == 1 and dest_ty:
+                en = base_name(dest_ty)
+                if en in self.prog.enums and segs[0] in self.prog.enums[en]:
+                    idx = self.prog.enums[en].index(segs[0])
+                    return Enum(idx, {idx: Agg(vals)}, en)
             if k == "raw":
                 raise Unsupported(f"rvalue {rv[1]} in {f.body.name}")
             return Agg(vals)
